@@ -67,6 +67,18 @@ def solve(pc, goal, timeout_ms):
                 return "sat", s2.model(), "z3", time.time() - t0
             if time.time() - t0 > 4 * timeout_ms / 1000:
                 break
+        # last resort, for a machine whose cores are all busy (budgets are wall-clock): one long attempt per solver
+        if cvc5_check(smt, 6 * timeout_ms) == "unsat":
+            return "unsat", None, "cvc5", time.time() - t0
+        s3 = z3.Solver()
+        s3.set("timeout", 4 * timeout_ms)
+        s3.add(*pc)
+        s3.add(z3.Not(goal))
+        r = s3.check()
+        if r == z3.unsat:
+            return "unsat", None, "z3", time.time() - t0
+        if r == z3.sat:
+            return "sat", s3.model(), "z3", time.time() - t0
     return "unknown", None, "z3+cvc5", time.time() - t0
 
 
